@@ -67,7 +67,7 @@ BUILT["C02"] = ("E2", "exploration", "deterministic simulation: invariant after 
 BUILT["C06"] = ("E2", "fault_enumeration", "deterministic simulation with denial faults enumerated over (composition slot x decision point), probe behaviours inside a derived composite whose fields are a plain behaviour, one behind Toggle and one behind Either",
   "All 12 (slot, point) combinations across runs with 30-90% denial rates plus background denials: denied ids are never established/counted/used, exactly one Denied failure per field and one error event, muxer closed; no Denied error without a denial",
   E2_NOTE, "5/C06")
-BUILT["C58"] = ("E2", "exploration", "deterministic simulation: every E2 run drives a #[derive(NetworkBehaviour)] composite of three probe fields (plain, behind Toggle, behind Either with a drawn side); cross-field consistency oracles",
+BUILT["C58"] = ("E2", "exploration", "deterministic simulation: every E2 run drives a #[derive(NetworkBehaviour)] composite of three probe fields (plain, behind Toggle, behind Either with a drawn side), muxer address changes; cross-field consistency oracles",
   "Identical FromSwarm sequences in all fields, handler events (Echo) return to the emitting field, denied iff some field denied, union of field addresses is what gets dialled (checked with C04)",
   E2_NOTE, "5/C58")
 BUILT["C04"] = ("E2", "exploration", "deterministic simulation: real Swarm::dial against a recording transport; target peers moved through disconnected/dialing/connected states by histories; per-dial oracle evaluated on the reference model",
@@ -151,7 +151,7 @@ BUILT["C39"] = ("E3", "exploration", "deterministic simulation: the real closest
 BUILT["C41"] = ("E3", "exploration", "seeded operation sequences against the real MemoryStore compared with a reference map after every operation",
   "limits 1..4 records, 4..12 value bytes, 1..3 providers per key, 1..3 provided keys; put (fresh values and the stored value again with another publisher/expiry)/get (whole record compared)/remove/add_provider/remove_provider; provided() == local provider records",
   "no clock, schedule or fault in this store: operation-sequence (history) comparison only", "5/C41")
-BUILT["C42"] = ("E2", "exploration", "deterministic simulation: real kad::Behaviour (server mode, MemoryStore) in a real Swarm, scripted peers sending PUT_VALUE/GET_VALUE frames, virtual time steps leaving sub-second lifetimes; the record store is read after every request",
+BUILT["C42"] = ("E2", "exploration", "deterministic simulation: real kad::Behaviour (server mode, MemoryStore) in a real Swarm, scripted peers sending PUT_VALUE/GET_VALUE frames, virtual time steps leaving sub-second lifetimes, answers held up (connection tasks frozen) between lookup and encoding while the record expires; the record store is read after every request",
   "record_ttl none or 3..60 s x sender ttl none/1..3/30/3600, fresh records and the already stored record sent again with another lifetime: stored expiry <= min of both, no expiry only if neither set; GET_VALUE answers for expiring records carry ttl > 0",
   E2P_NOTE, "5/C42")
 BUILT["C43"] = ("E2", "exploration", "same simulation as C42 with ADD_PROVIDER and PUT_VALUE frames carrying arbitrary provider / publisher ids",
